@@ -440,12 +440,14 @@ def bad_ranges(rng, bounds):
     return [r for r in out if r[0] is not None]
 
 
-def _seq_case(rng, sc):
+def _seq_case(rng, sc, big=False):
     L = rng.choice([60, 120, 250, 500])
     mode = rng.choice(["chrom", "chrom", "chrom-bare", "chunk", "chunk", "none"])
     ng = rng.randint(2, 8) if L > 60 else rng.randint(2, 4)
     nf = rng.randint(0, 4) if L > 60 else rng.randint(0, 2)
     nv = rng.choice([0, 0, 0, 1, 2])
+    if big:     # scale: 40..150 genes and a dozen feature collections on a few kb
+        L, ng, nf, nv = rng.choice([3000, 6000]), rng.choice([40, 80, 150]), rng.randint(8, 16), 0
     cspec = _rand_cspec(rng, 0, L, ng, nf, nv)
     members = members_from_spec(cspec)
     pspec = {"mode": mode, "glen": L, "gseed": rng.randrange(1 << 30), "seqname": "chr1", "window": None,
@@ -553,6 +555,8 @@ def cases(spec, ctx):
     rng = ctx.rng
     for _ in range(sc["NSEQ"] // n + 1):
         yield _seq_case(rng, sc)
+    if i % 4 == 0:
+        yield _seq_case(__import__("random").Random(f"C09-big:{ctx.seed}:{i}"), sc, big=True)
     for j in range(sc["NBAND"] // n + 1):
         yield _band_case(rng, sc, KS[(j + i) % len(KS)])
 
